@@ -95,6 +95,8 @@ def natural_int(x):
         return YES if x >= 1 else NO
     if x is True:
         return GRAY
+    if isinstance(x, int) and type(x) is not bool:
+        return GRAY if x >= 1 else NO       # instance of an int subclass: unreachable from JSON, not asserted
     if type(x) is float:
         if x != x or x in (float("inf"), float("-inf")):
             return NO
